@@ -40,6 +40,9 @@ def _zones(rng, H, W, dtype):
     z = np.array(alphabet, dtype=dtype)[idx % n]
     if z.dtype.kind == "f" and rng.random() < 0.4:
         z[nprs.rand(H, W) < 0.15] = np.nan
+    if z.dtype.kind == "f" and rng.random() < 0.15:
+        # +inf is not a zone (only finite ids are); it sorts behind every id like NaN does
+        z[nprs.rand(H, W) < 0.1] = np.inf
     return z, [a for a in alphabet]
 
 
@@ -122,6 +125,11 @@ def gen_case(st, i, tier="quick", op=None):
 
     crng = st["chunks"]
     MB = QUICK_BLOCKS if tier == "quick" else MAX_BLOCKS
+    many = tier == "thorough" and op == "zonal_stats" and rng.random() < 0.04
+    if many:
+        # merges over many partial results (13..20 blocks): ~20 000 tasks, 10-80 s per run, so rare,
+        # with a short stat list, and only in the thorough tier
+        MB = rng.randint(13, 20)
     if op == "zonal_stats":
         vdt = rng.choice(["i4", "i8", "u1", "f4", "f8", "f8"])
         v = _values(rng, (H, W), vdt)
@@ -135,6 +143,11 @@ def gen_case(st, i, tier="quick", op=None):
         params["nodata_values"] = _nodata(rng, v)
         zones["chunks"] = g.chunks_for(crng, (H, W), MB)
         values["chunks"] = g.chunks_for(crng, (H, W), MB) if crng.random() < 0.7 else [list(c) for c in zones["chunks"]]
+        if many:
+            n = min(MB, H * W)
+            zones["chunks"] = _exact_blocks(crng, H, W, n)
+            values["chunks"] = [list(c) for c in zones["chunks"]]
+            params["stats_funcs"] = rng.sample(ALL_STATS, rng.randint(1, 2))
         real_op = "zonal_stats"
     elif op == "zonal_crosstab":
         vdt = rng.choice(["i4", "i8", "f4", "f8"])
@@ -217,6 +230,21 @@ def followups(case, st):
         c = {k: x for k, x in case.items() if k != "followup"}
         c["followup"] = {"params": p2, "rasters": [None, None]}
         out.append(c)
+    return out
+
+
+def _exact_blocks(rng, H, W, n):
+    """A chunking of an H x W raster with exactly a x b = n' blocks, n' as close to n as the shape allows."""
+    best = (1, 1)
+    for a in range(1, H + 1):
+        b = min(W, n // a)
+        if b >= 1 and a * b > best[0] * best[1] and a * b <= n:
+            best = (a, b)
+    out = []
+    for size, parts in ((H, best[0]), (W, best[1])):
+        cuts = sorted(rng.sample(range(1, size), parts - 1)) if parts > 1 else []
+        edges = [0] + cuts + [size]
+        out.append([edges[k + 1] - edges[k] for k in range(parts)])
     return out
 
 
